@@ -29,7 +29,26 @@ func runHist(line string, out *bufio.Writer) {
 		return
 	}
 	objs, ids := h.Objects()
+	// a second tree, built BEFORE the tree of the history and never touched again: operations on one tree must not
+	// change another (package-level state, shared storage); re-dumped and compared when the history is over
+	var shadow *rtree.Rtree
+	shadowDump := ""
+	dumpOf := func(t *rtree.Rtree) string {
+		var s strings.Builder
+		root, _, _ := t.VerifWalk(70)
+		fmt.Fprintf(&s, "%d %d", t.Size(), t.Depth())
+		rtwire.Dump(&s, root, ids)
+		return s.String()
+	}
+	vproto.Safe(func() {
+		shadow = rtree.NewTree(h.Min, h.Max)
+		for i := 0; i < len(objs) && i < 3; i++ {
+			shadow.Insert(objs[i])
+		}
+		shadowDump = dumpOf(shadow)
+	})
 	tree := rtree.NewTree(h.Min, h.Max)
+	lastStep := -1
 	qb := make([]*geom.Bounds, len(h.Queries))
 	for i, q := range h.Queries {
 		qb[i] = q.Bounds()
@@ -80,6 +99,7 @@ func runHist(line string, out *bufio.Writer) {
 					res[i][j] = nil
 				}
 			}
+			lastStep = b.Len()
 			b.WriteString(s.String())
 		})
 		if msg != "" {
@@ -87,7 +107,15 @@ func runHist(line string, out *bufio.Writer) {
 			break
 		}
 	}
-	out.WriteString(b.String())
+	res := b.String()
+	if shadow != nil && lastStep >= 0 {
+		now := ""
+		if msg := vproto.Safe(func() { now = dumpOf(shadow) }); msg != "" || now != shadowDump {
+			// reported in place of the last step (the judge reads one step per reported operation)
+			res = res[:lastStep] + " | panic another-tree-built-before-this-history-(3-inserts,-never-touched-again)-was-changed-by-the-operations-of-this-history"
+		}
+	}
+	out.WriteString(res)
 	out.WriteString("\n")
 	out.Flush()
 }
